@@ -168,6 +168,31 @@ def audit_assumptions(make_out, props_file):
     return len(theorems), ok, problems, sorted(used)
 
 
+def coqchk(props_file, timeout=3000):
+    """independent re-check of the compiled Props file and everything it depends on (thorough tier).
+    Returns StepResult; ok only if coqchk succeeds and reports no axioms outside the allow-list, no type-in-type,
+    no unsafe fixpoints, no assumed positivity."""
+    mod = "TV." + props_file[:-2].replace("/", ".")
+    rc, out, dt = sh(["coqchk", "-o", "-silent", "-Q", ".", "TV", mod], cwd=COQ, timeout=timeout)
+    if rc != 0:
+        return StepResult(False, "coqchk failed on %s" % mod, out)
+    allow = allowed_axioms()
+    problems = []
+    m = re.search(r"\* Axioms:(.*?)\n\s*\n\* Constants/Inductives relying on type-in-type:(.*?)\n\s*\n\* Constants/Inductives relying on unsafe \(co\)fixpoints:(.*?)\n\s*\n\* Inductives whose positivity is assumed:(.*?)\n", out + "\n", re.S)
+    if not m:
+        return StepResult(False, "coqchk output not understood", out)
+    axioms = [x.strip() for x in m.group(1).split("\n") if x.strip() and x.strip() != "<none>"]
+    bad_ax = [x for x in axioms if x not in allow and x.split(".")[-1] not in allow]
+    if bad_ax:
+        problems.append("axioms outside the allow-list: %s" % ", ".join(bad_ax))
+    for i, what in ((2, "type-in-type"), (3, "unsafe fixpoints"), (4, "assumed positivity")):
+        if m.group(i).strip() != "<none>":
+            problems.append("%s: %s" % (what, m.group(i).strip()[:200]))
+    if problems:
+        return StepResult(False, "coqchk: " + "; ".join(problems), out)
+    return StepResult(True, "coqchk -o ok in %.0fs (axioms: %s)" % (dt, ", ".join(axioms) or "none"), out)
+
+
 def build_driver(name="core"):
     r = coq_make(["Extract/Extract_%s.vo" % name])
     if not r.ok:
